@@ -12,6 +12,16 @@ OP_NOTE = ("Trusted: TLC; the harness store (harness/modelstore) as an implement
            "implementation traces are TLC-simulated behaviours plus seeded random histories, not all histories.")
 
 CLAIMS = {
+    "C09": dict(level="exploration", ref="DESIGN.md §3 C09, §4",
+                text="spec/Handler.tla: the per-execution state machine Idle -> Started -> StorageCall* -> Responded (library calls: Returned) has no transition for a "
+                     "panic, a second response, storage work after an error response, a value returned for an error status / missing document, or a verifier "
+                     "accepting a non-object payload; TLC enumerates the case set: endpoint x method x 45 malformation classes (x grant type) x provider "
+                     "configuration on both routers, 7 verifiers x 20 payload classes / 7 segment shapes, 15 claims and response types x 22 fields x 12 JSON "
+                     "forms, 15 client helpers x 6 provider statuses x 11 bodies. Each case is concretised and executed (recover(), counting ResponseWriter, "
+                     "storage-call count at the first write); the monitor HandlerTrace judges the observations. The universal rules C09.nopanic / "
+                     "C09.oneResponse of OP.tla are evaluated on every event of seeded histories of all operations as well.",
+                technique="TLA+ monitor spec (missing transitions) + TLC-enumerated case set; class-exhaustive, member-sampled execution on the real code; observations judged by the TLA+ monitors",
+                note="Exploration: malformation classes, not all byte strings (DESIGN.md §4)."),
     "C10": dict(level="fault_enumeration", ref="DESIGN.md §3 C10",
                 text="spec/Faults.tla: case = (flow, router, k, kind): the k-th storage call made while the request completing a prepared flow is served fails "
                      "with a plain error or context.DeadlineExceeded; 29 flows (authorize with and without hint, callback code / form_post / implicit / id_token, "
